@@ -13,6 +13,9 @@ fn diag_list(sa: &Sema, errs: &[dora_frontend::error::msg::ErrorDescriptor], con
     }).collect()
 }
 
+/// source location of the last panic (set by the hook installed in `run`)
+static PANIC_AT: std::sync::Mutex<String> = std::sync::Mutex::new(String::new());
+
 pub fn check_text(content: &str, emit: bool) -> Value {
     let c = content.to_string();
     let r = std::panic::catch_unwind(move || {
@@ -33,7 +36,8 @@ pub fn check_text(content: &str, emit: bool) -> Value {
         Ok(v) => v,
         Err(p) => {
             let msg = p.downcast_ref::<String>().cloned().or_else(|| p.downcast_ref::<&str>().map(|s| s.to_string())).unwrap_or_default();
-            json!({"panic": msg})
+            let at = PANIC_AT.lock().map(|g| g.clone()).unwrap_or_default();
+            json!({"panic": msg, "panic_at": at})
         }
     }
 }
@@ -42,7 +46,11 @@ pub fn check_text(content: &str, emit: bool) -> Value {
 pub fn run(args: &[String]) -> i32 {
     let list = std::fs::read_to_string(&args[0]).expect("list");
     let emit = args.get(1).map(|s| s == "emit").unwrap_or(false);
-    std::panic::set_hook(Box::new(|_| {}));
+    std::panic::set_hook(Box::new(|info| {
+        if let (Some(l), Ok(mut g)) = (info.location(), PANIC_AT.lock()) {
+            *g = format!("{}:{}", l.file(), l.line());
+        }
+    }));
     let mut n = 0;
     for path in list.lines() {
         let Ok(bytes) = std::fs::read(path) else { continue };
